@@ -6,6 +6,7 @@ pub mod c03;
 pub mod c04;
 pub mod c10;
 pub mod c11;
+pub mod c13;
 pub mod c14;
 pub mod c15;
 pub mod c16;
@@ -20,6 +21,7 @@ pub fn property(id: &str, tier: Tier) -> Option<PropertyDef> {
 		"C18" => Some(c18::def(tier)),
 		"C15" => Some(c15::def(tier)),
 		"C14" => Some(c14::def(tier)),
+		"C13" => Some(c13::def(tier)),
 		"C11" => Some(c11::def(tier)),
 		"C10" => Some(c10::def(tier)),
 		"C02" => Some(c02::def(tier)),
@@ -29,4 +31,4 @@ pub fn property(id: &str, tier: Tier) -> Option<PropertyDef> {
 	}
 }
 
-pub const ALL: &[&str] = &["C01", "C02", "C03", "C04", "C10", "C11", "C14", "C15", "C16", "C17", "C18"];
+pub const ALL: &[&str] = &["C01", "C02", "C03", "C04", "C10", "C11", "C13", "C14", "C15", "C16", "C17", "C18"];
